@@ -339,3 +339,28 @@ pub fn encode_data(data: &InterpreterData, version: semver::Version) -> Vec<u8> 
 pub fn show_trace(d: &InterpreterData) -> String {
     d.trace.iter().enumerate().map(|(i, s)| format!("{i}:{s}")).collect::<Vec<_>>().join(" | ")
 }
+
+// ---------------------------------------------------------------------------------------------
+// watchdog in CPU time of the process (ITIMER_PROF): a loaded machine must not turn a slow history into a "hang"
+// ---------------------------------------------------------------------------------------------
+#[repr(C)]
+struct TimeVal {
+    tv_sec: i64,
+    tv_usec: i64,
+}
+#[repr(C)]
+struct ITimerVal {
+    it_interval: TimeVal,
+    it_value: TimeVal,
+}
+extern "C" {
+    fn setitimer(which: i32, new_value: *const ITimerVal, old_value: *mut ITimerVal) -> i32;
+}
+/// Arms (secs > 0) or disarms (secs == 0) a SIGPROF after `secs` seconds of CPU time consumed by this process.
+pub fn cpu_watchdog(secs: i64) {
+    const ITIMER_PROF: i32 = 2;
+    let v = ITimerVal { it_interval: TimeVal { tv_sec: 0, tv_usec: 0 }, it_value: TimeVal { tv_sec: secs, tv_usec: 0 } };
+    unsafe {
+        setitimer(ITIMER_PROF, &v, std::ptr::null_mut());
+    }
+}
